@@ -187,7 +187,7 @@ static void w_apply(mc_op_t o)
         break;
     }
     }
-    if (ab) MC_CHECK(PC08 | PC15, 0, "unexpected %s inside the library: %s", ab == 2 ? "assertion failure" : "abort()", ab == 2 ? shim_assert_msg : "");
+    if (ab) MC_CHECK(PC08 | PC15, 0, "unexpected %s inside the library: %s", ab == 3 ? "non-termination (a library call still running after 3 s)" : ab == 2 ? "assertion failure" : "abort()", ab == 2 ? shim_assert_msg : "");
     else if (mc_checking) check_live_nodes("after the operation");
 }
 
